@@ -402,30 +402,30 @@ def stepP (s : St) : Op → St × Ans
   | .lRef i => (s, resInt (listRef s.cl i))
   | .lFirst => (s, resInt (first s.cl))
   | .lLast => (s, resInt (last s.cl))
-  | .lRest => let (c, o) := updSeq s.cl (rest s.cl); ({ s with cl := c }, o)
-  | .lTake n => let (c, o) := updSeq s.cl (take s.cl n); ({ s with cl := c }, o)
-  | .lTail n => let (c, o) := updSeq s.cl (listTail s.cl n); ({ s with cl := c }, o)
-  | .lDrop n => let (c, o) := updSeq s.cl (drop s.cl n); ({ s with cl := c }, o)
+  | .lRest => let r := updSeq s.cl (rest s.cl); ({ s with cl := r.1 }, r.2)
+  | .lTake n => let r := updSeq s.cl (take s.cl n); ({ s with cl := r.1 }, r.2)
+  | .lTail n => let r := updSeq s.cl (listTail s.cl n); ({ s with cl := r.1 }, r.2)
+  | .lDrop n => let r := updSeq s.cl (drop s.cl n); ({ s with cl := r.1 }, r.2)
   | .lAppend before after => let c := append (before ++ [s.cl] ++ after); ({ s with cl := c }, .seq c)
   | .lReverse => let c := s.cl.reverse; ({ s with cl := c }, .seq c)
   | .lCons x => let c := x :: s.cl; ({ s with cl := c }, .seq c)
-  | .lRange lo hi => let (c, o) := updSeq s.cl (range lo hi); ({ s with cl := c }, o)
+  | .lRange lo hi => let r := updSeq s.cl (range lo hi); ({ s with cl := r.1 }, r.2)
   | .vNew xs => ({ s with cv := xs }, .seq xs)
   | .vLen => (s, .int s.cv.length)
   | .vRef i => (s, resInt (vectorRef s.cv i))
-  | .vSet i x => let (c, o) := updSeq s.cv (vectorSet s.cv i x); ({ s with cv := c }, o)
+  | .vSet i x => let r := updSeq s.cv (vectorSet s.cv i x); ({ s with cv := r.1 }, r.2)
   | .vPush x => let c := vectorPush s.cv x; ({ s with cv := c }, .seq c)
   | .vAppend before after => let c := vectorAppend (before ++ [s.cv] ++ after); ({ s with cv := c }, .seq c)
-  | .bNew xs => let (c, o) := updSeq s.cb (bytesNew xs); ({ s with cb := c }, o)
+  | .bNew xs => let r := updSeq s.cb (bytesNew xs); ({ s with cb := r.1 }, r.2)
   | .bLen => (s, .int s.cb.length)
   | .bRef i => (s, resInt (bytesRef s.cb i))
-  | .bSet i x => let (c, o) := updSeq s.cb (bytesSet s.cb i x); ({ s with cb := c }, o)
-  | .bPush x => let (c, o) := updSeq s.cb (bytesPush s.cb x); ({ s with cb := c }, o)
+  | .bSet i x => let r := updSeq s.cb (bytesSet s.cb i x); ({ s with cb := r.1 }, r.2)
+  | .bPush x => let r := updSeq s.cb (bytesPush s.cb x); ({ s with cb := r.1 }, r.2)
   | .bAppend before after => let c := bytesAppend (before ++ [s.cb] ++ after); ({ s with cb := c }, .seq c)
   | .tNew cs => ({ s with ct := cs }, .str cs)
   | .tLen => (s, .int (stringLength s.ct))
   | .tRef i => (s, match stringRef s.ct i with | .ok c => .chr c | .err => .err)
-  | .tSub i j => let (c, o) := updStr s.ct (substring s.ct i j); ({ s with ct := c }, o)
+  | .tSub i j => let r := updStr s.ct (substring s.ct i j); ({ s with ct := r.1 }, r.2)
   | .tToList i j => (s, match stringToList s.ct i j with | .ok cs => .str cs | .err => .err)
   | .tAppend before after => let c := stringAppend (before ++ [s.ct] ++ after); ({ s with ct := c }, .str c)
 
@@ -482,30 +482,30 @@ def stepS (s : St) : Op → St × Ans
   | .lRef i => (s, resInt (lRef s.cl i))
   | .lFirst => (s, resInt (lFirst s.cl))
   | .lLast => (s, resInt (lLast s.cl))
-  | .lRest => let (c, o) := updSeq s.cl (lRest s.cl); ({ s with cl := c }, o)
-  | .lTake n => let (c, o) := updSeq s.cl (lTake s.cl n); ({ s with cl := c }, o)
-  | .lTail n => let (c, o) := updSeq s.cl (lTail s.cl n); ({ s with cl := c }, o)
-  | .lDrop n => let (c, o) := updSeq s.cl (lDrop s.cl n); ({ s with cl := c }, o)
+  | .lRest => let r := updSeq s.cl (lRest s.cl); ({ s with cl := r.1 }, r.2)
+  | .lTake n => let r := updSeq s.cl (lTake s.cl n); ({ s with cl := r.1 }, r.2)
+  | .lTail n => let r := updSeq s.cl (lTail s.cl n); ({ s with cl := r.1 }, r.2)
+  | .lDrop n => let r := updSeq s.cl (lDrop s.cl n); ({ s with cl := r.1 }, r.2)
   | .lAppend before after => let c := (before ++ [s.cl] ++ after).flatten; ({ s with cl := c }, .seq c)
   | .lReverse => let c := s.cl.reverse; ({ s with cl := c }, .seq c)
   | .lCons x => let c := x :: s.cl; ({ s with cl := c }, .seq c)
-  | .lRange lo hi => let (c, o) := updSeq s.cl (lRange lo hi); ({ s with cl := c }, o)
+  | .lRange lo hi => let r := updSeq s.cl (lRange lo hi); ({ s with cl := r.1 }, r.2)
   | .vNew xs => ({ s with cv := xs }, .seq xs)
   | .vLen => (s, .int s.cv.length)
   | .vRef i => (s, resInt (vRef s.cv i))
-  | .vSet i x => let (c, o) := updSeq s.cv (vSet s.cv i x); ({ s with cv := c }, o)
+  | .vSet i x => let r := updSeq s.cv (vSet s.cv i x); ({ s with cv := r.1 }, r.2)
   | .vPush x => let c := vPush s.cv x; ({ s with cv := c }, .seq c)
   | .vAppend before after => let c := (before ++ [s.cv] ++ after).flatten; ({ s with cv := c }, .seq c)
-  | .bNew xs => let (c, o) := updSeq s.cb (bMake xs); ({ s with cb := c }, o)
+  | .bNew xs => let r := updSeq s.cb (bMake xs); ({ s with cb := r.1 }, r.2)
   | .bLen => (s, .int s.cb.length)
   | .bRef i => (s, resInt (vRef s.cb i))
-  | .bSet i x => let (c, o) := updSeq s.cb (bSet s.cb i x); ({ s with cb := c }, o)
-  | .bPush x => let (c, o) := updSeq s.cb (if isByte x then .ok (vPush s.cb x) else .err); ({ s with cb := c }, o)
+  | .bSet i x => let r := updSeq s.cb (bSet s.cb i x); ({ s with cb := r.1 }, r.2)
+  | .bPush x => let r := updSeq s.cb (if isByte x then .ok (vPush s.cb x) else .err); ({ s with cb := r.1 }, r.2)
   | .bAppend before after => let c := (before ++ [s.cb] ++ after).flatten; ({ s with cb := c }, .seq c)
   | .tNew cs => ({ s with ct := cs }, .str cs)
   | .tLen => (s, .int s.ct.length)
   | .tRef i => (s, match strRef s.ct i with | .ok c => .chr c | .err => .err)
-  | .tSub i j => let (c, o) := updStr s.ct (strRange s.ct (some i) j); ({ s with ct := c }, o)
+  | .tSub i j => let r := updStr s.ct (strRange s.ct (some i) j); ({ s with ct := r.1 }, r.2)
   | .tToList i j => (s, match strRange s.ct i j with | .ok cs => .str cs | .err => .err)
   | .tAppend before after => let c := (before ++ [s.ct] ++ after).flatten; ({ s with ct := c }, .str c)
 
